@@ -407,6 +407,18 @@ func (c15) Exec(sc *sim.Scenario, env *sim.Env) *sim.Violation {
 				}
 				m.NoCap = true
 				st.Probe("block_through_clone")
+				if sc.Seed&16 != 0 && seg.orig != nil && capacity > 0 && !m.basePend {
+					// while the block is being generated into the clone, the caller notes something
+					// on the original (a remark ahead of the block): it is issued before the Append,
+					// so it stands before the block's lines (not done while a base directive is still pending:
+					// original and clone would each flush it, and which of them should is not defined)
+					cop := sim.Op{K: "comment", S: "block follows"}
+					m.step(cop)
+					if p, msg := asmApply(seg.orig, cop); p {
+						return &sim.Violation{Oracle: "refusal_mismatch", Step: i, Msg: "Comment on the original while a clone is in flight panicked: " + msg}
+					}
+					st.Probe("original_used_while_clone_in_flight")
+				}
 			}
 			continue
 		}
